@@ -38,15 +38,16 @@ theorem createAst_follows_grammar {L : Ladder} (hL : L.WF = true) (cpp : Bool) (
 
 /-- the full-strength statement (no `declOK`) is FALSE of the code as modelled: for `( a * b = c ) ;` skipDecl
 (lib/tokenlist.cpp) jumps over `a *` and the tree is `=`(b, c) (finding F7a; the real-code witnesses are in
-corpus/C07) -/
-theorem createAst_follows_grammar_counterexample :
+corpus/C07).  `hcode`: the working tree does not have the early return `tok->varId() != 0` in skipDecl proposed in
+/verif/proposed/C07-skipdecl-variable.diff (extracted by the translator; `unpatched_skipDecl` below decides it). -/
+theorem createAst_follows_grammar_counterexample (hcode : Gen.AstLadder.astLadder.declVarGuard = false) :
     ¬ ∀ (e : PExpr), Gram Gen.AstLadder.astLadder false Gen.AstLadder.astLadder.levels e = true →
         e.need ≤ Gen.AstLadder.astLadder.maxDepth →
         astOf Gen.AstLadder.astLadder true (e.print ++ [Tok.op [';']]) =
           .ok ⟨(prepE e).print.reverse, [Tok.op [';']], [⟨(prepE e).rootOff, e.toAst⟩], 0⟩ := by
   intro h
   have h1 := h declWitness (by decide) (by decide)
-  rw [declWitness_parse (by decide) true (by decide) (by decide)] at h1
+  rw [declWitness_parse (by decide) true (by decide) (by decide) hcode] at h1
   have h2 := congrArg (fun r => match r with | .ok st => st.stk.map Entry.ast | .error _ => []) h1
   revert h2
   decide
